@@ -616,8 +616,8 @@ def run(chk):
     if not only or "proof" in only:
         chk.guard(finite_obligations)
         chk.guard(frame_obligations)
-        chk.guard(kmer_obligations)
-        chk.guard(kmer_seq_obligations)
+        chk.guard(kmer_obligations, fallback=[_replay_kmer])
+        chk.guard(kmer_seq_obligations, fallback=[_replay_kmer_seq])
         chk.discharge()
     chk.assume("bytes.translate / str slicing are pointwise (trusted): the translation of a sequence is the concatenation of "
                "the per-codon lookups of the segments proved here")
